@@ -602,7 +602,7 @@ CONTRACTS = [
       properties=["C05"]),
     C("subhypergraph_by_orders", params={"orders": "None", "sizes": "Bag[Int]", "keep_nodes": "Bool"}, fixed={"orders": None},
       result="Obj[Hypergraph]", pure=True, locals={"sizes": "Bag[Int]"},
-      requires={"wf": "wf(self)", "no_repeat": "all(count(sizes, s) == 1 for s in sizes)"},
+      requires={"wf": "wf(self)"},      # a size may be listed more than once (repaired: fix commit in /repo)
       ensures={
           "wf": "wf(result)", "weighted": "weighted(result) == weighted(self)",
           "E": "all((k in E(result)) == (k in E(self) and count(sizes, len(k)) >= 1) for k in Tuple)",
@@ -616,13 +616,13 @@ CONTRACTS = [
           0: {"wf": "wf(h)", "weighted": "weighted(h) == weighted(self)", "V": "V(h) == V(self)", "E": "all(k not in E(h) for k in Tuple)",
               "NM": "all(NM(h, n) == NM(self, n) for n in _done0)"},
           2: {"wf": "wf(h)", "weighted": "weighted(h) == weighted(self)",
-              "E": "all((k in E(h)) == (k in E(self) and count(_done2, len(k)) >= 1) for k in Tuple)",
+              "E": "all((k in E(h)) == (k in E(self) and len(k) in _done2) for k in Tuple)",
               "W": "all(W(h, k) == W(self, k) for k in E(h))", "M": "all(M(h, k) == M(self, k) for k in E(h))",
               "V_keep": "implies(keep_nodes, V(h) == V(self))",
               "V_drop": "implies(not keep_nodes, all((n in V(h)) == any(n in k for k in E(h)) for n in Node))",
               "NM": "implies(keep_nodes, all(NM(h, n) == NM(self, n) for n in V(h)))"},
           3: {"wf": "wf(h)", "weighted": "weighted(h) == weighted(self)",
-              "E": "all((k in E(h)) == (k in E(self) and (count(_done2, len(k)) >= 1 or count(_done3, k) >= 1)) for k in Tuple)",
+              "E": "all((k in E(h)) == (k in E(self) and (len(k) in _done2 or count(_done3, k) >= 1)) for k in Tuple)",
               "W": "all(W(h, k) == W(self, k) for k in E(h))", "M": "all(M(h, k) == M(self, k) for k in E(h))",
               "V_keep": "implies(keep_nodes, V(h) == V(self))",
               "V_drop": "implies(not keep_nodes, all((n in V(h)) == any(n in k for k in E(h)) for n in Node))",
@@ -637,7 +637,7 @@ CONTRACTS = [
     Contract(f"{CLS}.subhypergraph_by_orders@orders", FILE, [CLS, "subhypergraph_by_orders"], self_cls=CLS, properties=["C05"],
       params={"orders": "Bag[Int]", "sizes": "None", "keep_nodes": "Bool"}, fixed={"sizes": None},
       result="Obj[Hypergraph]", pure=True, locals={"sizes": "Bag[Int]"},
-      requires={"wf": "wf(self)", "no_repeat": "all(count(orders, s) == 1 for s in orders)"},
+      requires={"wf": "wf(self)"},
       ensures={
           "wf": "wf(result)", "weighted": "weighted(result) == weighted(self)",
           "E": "all((k in E(result)) == (k in E(self) and count(orders, len(k) - 1) >= 1) for k in Tuple)",
@@ -652,13 +652,13 @@ CONTRACTS = [
               "NM": "all(NM(h, n) == NM(self, n) for n in _done0)"},
           1: {"sizes": "all(count(sizes, s) == count(_done1, s - 1) for s in Int)"},
           2: {"wf": "wf(h)", "weighted": "weighted(h) == weighted(self)",
-              "E": "all((k in E(h)) == (k in E(self) and count(_done2, len(k)) >= 1) for k in Tuple)",
+              "E": "all((k in E(h)) == (k in E(self) and len(k) in _done2) for k in Tuple)",
               "W": "all(W(h, k) == W(self, k) for k in E(h))", "M": "all(M(h, k) == M(self, k) for k in E(h))",
               "V_keep": "implies(keep_nodes, V(h) == V(self))",
               "V_drop": "implies(not keep_nodes, all((n in V(h)) == any(n in k for k in E(h)) for n in Node))",
               "NM": "implies(keep_nodes, all(NM(h, n) == NM(self, n) for n in V(h)))"},
           3: {"wf": "wf(h)", "weighted": "weighted(h) == weighted(self)",
-              "E": "all((k in E(h)) == (k in E(self) and (count(_done2, len(k)) >= 1 or count(_done3, k) >= 1)) for k in Tuple)",
+              "E": "all((k in E(h)) == (k in E(self) and (len(k) in _done2 or count(_done3, k) >= 1)) for k in Tuple)",
               "W": "all(W(h, k) == W(self, k) for k in E(h))", "M": "all(M(h, k) == M(self, k) for k in E(h))",
               "V_keep": "implies(keep_nodes, V(h) == V(self))",
               "V_drop": "implies(not keep_nodes, all((n in V(h)) == any(n in k for k in E(h)) for n in Node))",
